@@ -1,7 +1,7 @@
 #!/bin/sh
-# builds the analyser offline from the module cache
+# builds the analyser and the rewrite tool offline from the module cache
 export GOFLAGS=-mod=mod GOPROXY=off GOSUMDB=off GOTOOLCHAIN=local
 unset GOWORK
 HERE="$(cd "$(dirname "$0")" && pwd)"
 mkdir -p "$HERE/bin" "$HERE/evidence"
-cd "$HERE/checker" && go build -o "$HERE/bin/lzcheck" . && echo "built $HERE/bin/lzcheck"
+cd "$HERE/checker" && go build -o "$HERE/bin/lzcheck" . && go build -o "$HERE/bin/lzrewrite" ./cmd/lzrewrite && echo "built $HERE/bin/lzcheck $HERE/bin/lzrewrite"
